@@ -25,7 +25,7 @@ SetX(x) == /\ pc' = x.pc /\ dir' = x.dir /\ idx' = x.idx /\ rd' = x.rd /\ wr' = 
            /\ last' = x.last /\ live' = x.live /\ pts' = x.pts
 
 \* the backing holders: every tensor in the outermost memory, in the world's tensor order
-Backing(w) == [i \in 1..Len(w.tensors) |-> [kind |-> "S", mem |-> TopComp(w), t |-> w.tensors[i]]]
+Backing(w) == [i \in 1..Len(w.tensors) |-> [kind |-> "S", mem |-> TopComp(w), t |-> w.tensors[i], pers |-> FALSE]]
 
 Init ==
   /\ W \in {Worlds[i] : i \in 1..Len(Worlds)}
@@ -46,11 +46,14 @@ AddLoop ==
             /\ nodes' = Append(nodes, [kind |-> "T", rv |-> r, tile |-> d])
   /\ UNCHANGED <<W, phase, xvars>>
 
+NoLoopYet == \A j \in 1..Len(nodes) : ~IsLoop(nodes[j])
 AddHolder ==
   /\ phase = "build" /\ Len(nodes) < MaxNodes
-  /\ \E m \in DOMAIN W.level, t \in DOMAIN W.proj :
+  /\ \E m \in DOMAIN W.level, t \in DOMAIN W.proj, ps \in BOOLEAN :
        /\ W.level[m] > LastLevel(t)
-       /\ nodes' = Append(nodes, [kind |-> "S", mem |-> m, t |-> t])
+       \* a persistent holder keeps a whole (untiled) input tensor of a memory, one copy per instance
+       /\ ps => (W.allowpers /\ NoLoopYet /\ ~W.istoll[m] /\ t # W.out)
+       /\ nodes' = Append(nodes, [kind |-> "S", mem |-> m, t |-> t, pers |-> ps])
   /\ UNCHANGED <<W, phase, xvars>>
 
 Close ==
@@ -71,10 +74,14 @@ PeakOf(m) == IF DOMAIN live[m] = {} THEN 0 ELSE Max({live[m][s] : s \in DOMAIN l
 
 Report ==
   LET tab == ActionTable(W, rd, wr)
-  IN [wid |-> W.id, nodes |-> nodes, rd |-> rd, wr |-> wr, macs |-> macs,
-      actions |-> tab,
-      latency |-> TotalLatency(W, tab, macs),
-      energy |-> TotalEnergy(W, tab, macs),
+      \* reported action counts, energy and latency are totals over the workload's n_instances
+      scaled == [c \in DOMAIN tab |-> [t \in DOMAIN tab[c] |->
+                   [read |-> RMul(R(W.ninst), tab[c][t].read), write |-> RMul(R(W.ninst), tab[c][t].write)]]]
+  IN [wid |-> W.id, nodes |-> nodes, rd |-> rd, wr |-> wr, macs |-> macs, mac_actions |-> macs * W.ninst,
+      actions |-> scaled,
+      ninst |-> W.ninst,
+      latency |-> RMul(R(W.ninst), TotalLatency(W, tab, macs)),
+      energy |-> RMul(R(W.ninst), TotalEnergy(W, tab, macs)),
       peak |-> [m \in DOMAIN W.level |-> PeakOf(m)],
       footprint |-> [m \in DOMAIN W.level |-> FootprintBits(W, nodes, m)],
       tilebits |-> [m \in DOMAIN W.level |-> TileBits(W, nodes, m)]]
